@@ -36,6 +36,8 @@ def _shape(b, o, key, name, maker):
     if mode == "opaque":
         if key == "parser" and getattr(b, "native", False):
             return b.new("GcodeParser")      # native replay: the real code below the summaries needs a real parser
+        if key in ("atcommands", "extended") and getattr(b, "native", False):
+            return {}                        # native replay: an empty configuration table instead of "not read"
         return b.opaque(name)
     if mode == "none":
         return None
